@@ -3,7 +3,8 @@
 import json
 from . import core
 from .sx import show, skeleton
-from .ref_scheme import Machine, SErr, OutOfModel, all_strategies, match_value, match_error, VOID, display_text, VecObj, Pair
+from .ref_scheme import Machine, SErr, OutOfModel, all_strategies, match_value, match_error, VOID, display_text, VecObj, Pair, Strategy as _Strategy
+from .sx import Sym
 
 
 def freeze(v, memo=None):
@@ -128,3 +129,56 @@ def age(job, rng, n):
     job["steps"] = [{"src": t} for t in gen_text.aging(rng, n)] + job["steps"]
     job["_aged"] = job.get("_aged", 0) + n
     return job
+
+
+def file_transport(ctx, programs, leg, what):
+    """the same programs reach the evaluator as a program FILE (eval_file) instead of one string per form: every expression form becomes
+    (define zresK FORM); the tick trace of the whole file and the values of all zresK must be what form-by-form evaluation gives"""
+    import os, tempfile, shutil
+    r = ctx.rng
+    d = tempfile.mkdtemp(prefix="c01f-", dir=core.TMP)
+    jobs, meta = [], []
+    for k, forms in enumerate(programs):
+        try:
+            exp = model_run(forms, _Strategy())
+        except OutOfModel:
+            continue
+        lines, names, trace = ["(import (scheme base))"], [], []
+        for i, (f, e) in enumerate(zip(forms, exp)):
+            trace += e[2]
+            if isinstance(f, list) and f and f[0] == Sym("define"):
+                lines.append(show(f))
+            else:
+                lines.append("(define zres%d %s)" % (i, show(f))); names.append((i, e[1]))
+        path = os.path.join(d, "p%d.scm" % k)
+        open(path, "w").write(r.choice(["\n", "\n\n", "\r\n"]).join(lines) + r.choice(["", "\n"]))
+        jobs.append({"id": "f%d" % k, "interps": [{"stdlib": False, "natives": True}], "steps": [{"file": path}, {"src": "(list %s)" % " ".join("zres%d" % i for i, _ in names)}], "fuel": 400000})
+        meta.append((forms, names, trace))
+    recs = core.run_jobs(jobs, leg, timeout=3000, tag="c01f")
+    from .ref_scheme import lst
+    for (forms, names, trace), rec in zip(meta, recs):
+        ctx.evaluations += 1
+        if rec is None or "steps" not in rec:
+            ctx.inconclusive_cases += 1; continue
+        st = rec["steps"]
+        k0, v0 = core.outcome(st[0])
+        tr = st[0].get("trace", [])
+        why = None
+        if k0 == "fuel":
+            ctx.inconclusive_cases += 1; continue
+        if k0 != "ok":
+            why = "the program file failed: %s" % (v0.get("msg") if isinstance(v0, dict) else k0)
+        elif len(tr) != len(trace) or not all(match_value(a, b) for a, b in zip(trace, tr)):
+            why = "tick trace of the file differs from form-by-form evaluation (expected %d ticks, observed %d)" % (len(trace), len(tr))
+        else:
+            k1, v1 = core.outcome(st[1])
+            if k1 != "ok" or not match_value(lst([e for _, e in names]), v1):
+                why = "values of the file's expression forms differ from form-by-form evaluation"
+        if why:
+            ctx.violation({"what": "%s evaluated as a program file disagrees with the reference semantics" % what, "kind": "model", "why": why, "leg": leg, "dedupe": "file|" + why[:30]},
+                          {"forms": [show(f) for f in forms], "leg": leg})
+        else:
+            ctx.count("programs_agree_as_files")
+    shutil.rmtree(d, ignore_errors=True)
+
+
